@@ -8,6 +8,7 @@ import (
 	_ "verifharness/sims/config"
 	_ "verifharness/sims/defaults"
 	_ "verifharness/sims/isolation"
+	_ "verifharness/sims/lifetime"
 	_ "verifharness/sims/linking"
 	_ "verifharness/sims/term"
 	_ "verifharness/sims/wasifs"
